@@ -750,7 +750,7 @@ func minU(a, b uint64) uint64 {
 // ---------------------------------------------------------------------------
 // oracle after every step
 
-const waitBound = 60 * time.Second
+const waitBound = 120 * time.Second
 
 // after an injected storage fault a commit may block for good (e.g. a precondition waiting, with the commit mutex held, for the
 // indexing of a transaction that the failed commit left precommitted): such calls are abandoned with an unknown outcome
@@ -1754,7 +1754,7 @@ func probeK02a() (bool, string) {
 		return ch
 	}
 	waitPre := func(id uint64) bool {
-		for i := 0; i < 100000 && st.LastPrecommittedTxID() < id; i++ {
+		for t0 := time.Now(); st.LastPrecommittedTxID() < id && time.Since(t0) < waitBound; {
 			time.Sleep(100 * time.Microsecond)
 		}
 		return st.LastPrecommittedTxID() >= id
@@ -1771,7 +1771,7 @@ func probeK02a() (bool, string) {
 	var err3 error
 	select {
 	case err3 = <-c3:
-	case <-time.After(20 * time.Second):
+	case <-time.After(waitBound):
 		return false, ""
 	}
 	if !errors.Is(err3, store.ErrBufferIsFull) {
@@ -1784,7 +1784,7 @@ func probeK02a() (bool, string) {
 		return false, ""
 	}
 	c4 := start("v4") // buffer is empty again
-	for i := 0; i < 200000; i++ {
+	for t0 := time.Now(); time.Since(t0) < waitBound; {
 		select {
 		case err4 := <-c4:
 			if err4 != nil {
@@ -1832,7 +1832,7 @@ func probeK02b() (bool, string) {
 			_, err = tx.AsyncCommit(ctx)
 			p.done <- err
 		}()
-		for i := 0; i < 200000 && st.LastPrecommittedTxID() < wantID; i++ {
+		for t0 := time.Now(); st.LastPrecommittedTxID() < wantID && time.Since(t0) < waitBound; {
 			time.Sleep(100 * time.Microsecond)
 		}
 		return p
